@@ -143,6 +143,23 @@ fn maybe_fault(case: &mut Case, r: &mut Prng, per_mille: u32) {
     }
 }
 
+/// A driver that, once, returns its outputs in another order (same signals): the row is an
+/// error item; everything after it must be as if nothing had happened.
+fn maybe_reorder(case: &mut Case, r: &mut Prng, per_mille: u32) {
+    if case.script.layout.len() < 2 || !case.script.faults.is_empty() || !r.chance(per_mille, 1000) {
+        return;
+    }
+    if let crate::refint::RefOutcome::Done(t) = crate::refint::run(&case.program, &case.signals, &case.script, Default::default()) {
+        let checked: Vec<usize> = t.calls.iter().enumerate().skip(1).filter(|(_, c)| c.reads).map(|(i, _)| i).collect();
+        if !checked.is_empty() {
+            let at = *r.pick(&checked);
+            let a = r.below(case.script.layout.len());
+            let b = (a + 1 + r.below(case.script.layout.len() - 1)) % case.script.layout.len();
+            case.script.faults.push((at, Fault::Swap(a, b)));
+        }
+    }
+}
+
 // ----------------------------------------------------------------------------------- C02
 
 pub const META_C02: Meta = Meta {
@@ -450,6 +467,7 @@ pub fn c04(case_seed: u64, acc: &mut Acc) {
     } else {
         // a failed driver call returns nothing: the values read before it stay the latest
         maybe_fault(&mut case, &mut r, 200);
+        maybe_reorder(&mut case, &mut r, 60);
     }
     let ran = run_oracles(
         &case,
@@ -540,6 +558,62 @@ pub fn c05(case_seed: u64, acc: &mut Acc) {
         };
         acc.tag("wide_row_8_to_10_X");
         c05_case_opts(&case, case_seed, "wide", acc, Some(crate::refint::RefOpts { max_rows: 3300, max_steps: 8000, ..Default::default() }));
+        return;
+    }
+    if r.chance(12, 1000) {
+        // very wide headers (65-140 columns, inputs and outputs interleaved): column indices
+        // beyond 64 / 128 - more than fits one machine word used as a bit set
+        let n = 65 + r.below(76);
+        let mut sigs: Vec<Sig> = vec![];
+        for i in 0..n {
+            if r.chance(1, 3) {
+                sigs.push(Sig { name: format!("O{i}"), bits: 1 + r.below(8), kind: SigKind::Out });
+            } else {
+                sigs.push(Sig { name: format!("I{i}"), bits: 1 + r.below(4), kind: SigKind::In(InVal::V(0)) });
+            }
+        }
+        let header: Vec<String> = sigs.iter().map(|s| s.name.clone()).collect();
+        let mut items = vec![];
+        for id in 1..=3usize {
+            let mut nx = 0;
+            let mut nc = 0;
+            let es: Vec<Entry> = sigs
+                .iter()
+                .map(|s| {
+                    if s.is_input() {
+                        match r.below(40) {
+                            0 if nx < 3 => {
+                                nx += 1;
+                                Entry::X(false)
+                            }
+                            1 if nc < 2 => {
+                                nc += 1;
+                                Entry::C(false)
+                            }
+                            2 => Entry::Z(false),
+                            _ => Entry::Lit(r.range(0, 3), Radix::Dec),
+                        }
+                    } else {
+                        match r.below(4) {
+                            0 => Entry::X(false),
+                            1 => Entry::Z(false),
+                            _ => Entry::Lit(r.range(0, 9), Radix::Dec),
+                        }
+                    }
+                })
+                .collect();
+            items.push(Item::Row(id, es));
+        }
+        let outs: Vec<usize> = (0..sigs.len()).filter(|&i| sigs[i].is_output()).collect();
+        let case = Case {
+            program: Program { header, items },
+            signals: sigs,
+            script: Script { layout: outs.into_iter().filter(|_| r.chance(1, 2)).collect(), values: ValueFn::Small { salt: 3, modulus: 4 }, faults: vec![], override_write: r.chance(1, 2), rebuild_signals: false },
+            layout_opts: crate::pp::Layout::plain(),
+            rng_seed: 1,
+        };
+        acc.tag("very_wide_header_65_to_140_columns");
+        c05_case(&case, case_seed, "wide-header", acc);
         return;
     }
     let cfg = profile_expand();
@@ -815,6 +889,7 @@ pub fn c14(case_seed: u64, acc: &mut Acc) {
         }
     }
     maybe_fault(&mut case, &mut r, 150);
+    maybe_reorder(&mut case, &mut r, 60);
     run_oracles(
         &case,
         case_seed,
@@ -865,6 +940,7 @@ pub fn c18(case_seed: u64, acc: &mut Acc) {
     };
     let mut case = gen::generate(&mut r, &cfg);
     maybe_fault(&mut case, &mut r, 150);
+    maybe_reorder(&mut case, &mut r, 60);
     run_oracles(
         &case,
         case_seed,
